@@ -97,12 +97,20 @@ func Compare(aVal, bVal reflect.Value) int {
 		}
 		return 0
 	case reflect.Slice:
-		for i := 0; i < aVal.Len(); i++ {
+		aLen, bLen := aVal.Len(), bVal.Len()
+		for i := 0; i < aLen && i < bLen; i++ {
 			if c := Compare(aVal.Index(i), bVal.Index(i)); c != 0 {
 				return c
 			}
 		}
-		return 0
+		switch {
+		case aLen < bLen:
+			return -1
+		case aLen > bLen:
+			return 1
+		default:
+			return 0
+		}
 	case reflect.Array:
 		for i := 0; i < aVal.Len(); i++ {
 			if c := Compare(aVal.Index(i), bVal.Index(i)); c != 0 {
